@@ -276,7 +276,7 @@ pub fn build(tier: &str) -> SimCheck {
     SimCheck {
         scenarios,
         oracle: Box::new(oracle),
-        bound: if thorough { 2 } else { 1 },
+        bound: if thorough { 3 } else { 2 },
         limits: Limits { max_wall_s: if thorough { 1500.0 } else { 50.0 }, ..Default::default() },
         rule: "scenario = server/pool statement cache size {1,2,8} x pool_size {1,2} x one or two client programs over shared names a/b (prepare then bind across transactions, two names, Describe, Close + re-Parse with new text, two Binds in one batch, LRU order, structurally colliding (text, n, types) encodings, same text with other types, Parse+Bind pairs in one batch, case variants, rejected Parse); all schedules with <= bound deviations; oracle = direct-connection reference per client".into(),
         assumptions: vec!["the reference backend without a pooler defines the direct-connection behaviour; synthesised ParseComplete/CloseComplete may be reordered within a reply".into()],
